@@ -243,3 +243,9 @@ func VC08_Pipeline() {
 	rt.Assert(n2 == 1, "the proxy keeps serving: the sentinel response is relayed after the hostile message")
 	rt.Reach("end")
 }
+
+// VC08_UDPServing: undecodable input on the real UDP transport (over-declared body, cut header section, keep-alive),
+// then a burst of well-formed datagrams while the parse loop lags behind the receive loop: the proxy keeps serving —
+// every datagram of the burst is delivered exactly once and intact (same scenario as VC10_Burst, read for C08's
+// "keeps serving the traffic that follows").
+func VC08_UDPServing() { VC10_Burst() }
